@@ -75,6 +75,14 @@ class Frame:
         self.defcls = self_cls
 
 
+class _PyRaise(Exception):
+    """the abstract machine itself determines that an exception is raised here (e.g. a missing key of a literal dict)"""
+
+    def __init__(self, exc: str):
+        super().__init__(exc)
+        self.exc = exc
+
+
 class _NoReturn(Exception):
     """an inlined callee never returns normally (every path raises): the calling path ends here"""
 
@@ -106,6 +114,8 @@ class Evaluator:
         self.seq = 0
         self.param_hook = param_hook
         self.decide = decide
+        self._in_try = 0
+        self.loop_log: List[dict] = []       # per executed while loop: state before, state at the end of the body, condition
         self.opaque_kind = opaque_kind or {}
         self.opaque_calls = 0
 
@@ -304,6 +314,15 @@ class Evaluator:
         except _NoReturn:
             del self.frames[depth:]
             del self.loops[loops:]
+            return False
+        except _PyRaise as ex:
+            if isinstance(s, ast.Try):
+                raise
+            del self.frames[depth:]
+            del self.loops[loops:]
+            if self._in_try:
+                raise
+            self.emit('raise', st, s, exc=ex.exc, reraise=False, implicit=True)
             return False
 
     def exec_Pass(self, s, st):
@@ -572,15 +591,27 @@ class Evaluator:
             elif isinstance(it, Term) and it.kind in ('ndarray', 'list', 'unknown'):
                 ctx.hi = term_as_num(it, True, it.kind).length
             elem = self.element_of(it, lsym)
-        body = st.clone()
-        self.havoc(body, names, stores, lid, 'in', targets=tnames)
-        self.loops.append(ctx)
         mark_events = len(self.events)
-        try:
-            self.assign(s.target, elem, body, s)
-            self.exec_block(s.body, body)
-        finally:
-            self.loops.pop()
+        mark_issues = len(self.issues)
+        carried: Dict[str, Val] = {}
+        for attempt in (0, 1):
+            body = st.clone()
+            self.havoc(body, names, stores, lid, 'in', targets=tnames)
+            body.env.update(carried)
+            self.loops.append(ctx)
+            try:
+                self.assign(s.target, elem, body, s)
+                self.exec_block(s.body, body)
+            finally:
+                self.loops.pop()
+            if attempt == 1:
+                break
+            carried = self._carried_values(ctx, names - tnames, st, body)
+            if not carried:
+                break
+            # second pass with the loop-carried names bound to their previous-iteration value
+            del self.events[mark_events:]
+            del self.issues[mark_issues:]
         if s.orelse:
             self.exec_block(s.orelse, body)
         summary = self._summarise_loop(s, ctx, st, body, mark_events)
@@ -599,6 +630,32 @@ class Evaluator:
         for nm, val in summary.items():
             st.env[nm] = val
         return True
+
+    def _carried_values(self, ctx: 'LoopCtx', names, st: State, body: State) -> Dict[str, Val]:
+        """loop-carried names with a closed form: `v` is (unconditionally) re-assigned in every iteration k to E(k), E free of
+        loop-carried state, and its value before the loop is E(lo - 1): then on entry of every iteration v == E(k - 1)."""
+        out: Dict[str, Val] = {}
+        if ctx.kind != 'range' or ctx.lo is None or ctx.sym is None:
+            return out
+        jat = _single_atom(ctx.sym)
+        if jat is None:
+            return out
+
+        def loop_state(v) -> bool:
+            return any(isinstance(t, Term) and t.head in ('loopvar', 'loopstate') and t.uid == ctx.lid for t in walk_vals(v))
+
+        for nm in sorted(names):
+            init, end = st.env.get(nm), body.env.get(nm)
+            if init is None or end is None or not isinstance(end, (Num, Term, Tup)) or loop_state(end):
+                continue
+            try:
+                at_entry = end.subst(lambda r: sym.subst(r, {jat: ctx.sym - C(1)}))
+                first = end.subst(lambda r: sym.subst(r, {jat: ctx.lo - C(1)}))
+            except Exception:
+                continue
+            if veq(first, init):
+                out[nm] = at_entry
+        return out
 
     def _summarise_loop(self, s, ctx: LoopCtx, st: State, body: State, mark: int) -> Dict[str, Val]:
         """`for j in range(n): out.append(v(j))` on an empty list, or `out[j] = v(j)` on a freshly allocated array of n
@@ -620,6 +677,8 @@ class Evaluator:
             v = e.data['value']
             if isinstance(before, Tup) and before.kind == 'list' and not before.items and isinstance(v, Num) and v.length is None:
                 out[recv.id] = Num(sym.subst(v.r, back), ctx.hi, 'list')
+            elif isinstance(before, Tup) and before.kind == 'list' and not before.items and isinstance(v, Val) and not isinstance(v, Num):
+                out[recv.id] = Term('listcomp', (v.subst(lambda r: sym.subst(r, back)), Num(ctx.hi)), kind='list')
         if len(stores) == 1 and not apps and not stores[0].guard[len(st.guard):] and not stores[0].data.get('aug'):
             e = stores[0]
             tgt = e.data.get('target_expr')
@@ -647,9 +706,12 @@ class Evaluator:
         lid = fresh_serial()
         names, stores = self.assigned_in(s.body)
         body = st.clone()
+        pre = st.clone()
         self.havoc(body, names, stores, lid, 'in')
         cond = self.truth(self.eval(s.test, body), body, s.test)
         ctx = LoopCtx(lid, 'while', None, None, node=s, cond=cond)
+        self.loop_log.append({'node': s, 'lid': lid, 'pre': pre, 'entry': dict(body.env), 'end': body, 'cond': cond, 'depth': len(self.loops), 'names': set(names),
+                              'orelse': bool(s.orelse)})
         if not isinstance(cond, Const):
             body.guard = body.guard + (cond,)
         elif not cond.v:
@@ -671,15 +733,43 @@ class Evaluator:
         return True
 
     def exec_Break(self, s, st):
+        self.emit('break', st, s, env=dict(st.env))
         return False
 
     def exec_Continue(self, s, st):
+        self.emit('continue', st, s)
         return False
 
     def exec_Try(self, s, st):
         mark = len(self.events)
         body = st.clone()
-        ft = self.exec_block(s.body, body)
+        caught = None
+        self._in_try += 1
+        depth, loops = len(self.frames), len(self.loops)
+        try:
+            ft = self.exec_block(s.body, body)
+        except _PyRaise as ex:
+            del self.frames[depth:]
+            del self.loops[loops:]
+            caught, ft = ex, False
+        finally:
+            self._in_try -= 1
+        if caught is not None:
+            # the body certainly raises `caught.exc`: only a matching handler continues
+            FAMILY = {'KeyError': ('KeyError', 'LookupError', 'Exception', 'BaseException'), 'IndexError': ('IndexError', 'LookupError', 'Exception', 'BaseException')}
+            for h in s.handlers:
+                names = [None] if h.type is None else ([self.exc_name(e, st) for e in h.type.elts] if isinstance(h.type, ast.Tuple) else [self.exc_name(h.type, st)])
+                if any(n is None or n in FAMILY.get(caught.exc, (caught.exc, 'Exception', 'BaseException')) for n in names):
+                    if h.name:
+                        st.env[h.name] = Term('exception', (Const(caught.exc),))
+                    cont = self.exec_block(h.body, st)
+                    if s.finalbody:
+                        cont = self.exec_block(s.finalbody, st) and cont
+                    return cont
+            if self._in_try:
+                raise caught
+            self.emit('raise', st, s, exc=caught.exc, reraise=False, implicit=True)
+            return False
         tev = self.emit('try', st, s, body_events=(mark, len(self.events)),
                         handlers=[self.exc_name(h.type, st) if h.type is not None and not isinstance(h.type, ast.Tuple)
                                   else ([self.exc_name(e, st) for e in h.type.elts] if h.type is not None else None)
@@ -1121,6 +1211,8 @@ class Evaluator:
             neg = isinstance(op, ast.NotIn)
             if isinstance(a, Const) and isinstance(b, Tup) and all(isinstance(i, Const) for i in b.items):
                 return Const((a.v in [i.v for i in b.items]) != neg)
+            if isinstance(a, Const) and isinstance(b, Kw) and b.rest is None:
+                return Const((a.v in b.items) != neg)
             p = P('in', a, b)
             return p_not(p) if neg else p
         if isinstance(a, Const) and isinstance(b, Const):
@@ -1210,6 +1302,8 @@ class Evaluator:
         if isinstance(base, Kw):
             if isinstance(idx, Const) and idx.v in base.items:
                 return base.items[idx.v]
+            if isinstance(idx, Const) and base.rest is None:
+                raise _PyRaise('KeyError')
             return Term('item', (base, idx))
         nb = base if isinstance(base, Num) else None
         if nb is None and isinstance(base, Term) and base.kind in ('ndarray', 'list'):
@@ -1773,6 +1867,10 @@ def b_len(ev, pos, kw, st, node):
             return ev._invoke(m, st, [], {}, None, v, node)
     if isinstance(v, Gam):
         return gamma(v.pred, b_len(ev, [v.a], kw, st, node), b_len(ev, [v.b], kw, st, node))
+    if isinstance(v, Term) and v.kind in ('ndarray', 'list'):
+        return Num(term_as_num(v, True, v.kind).length)
+    if isinstance(v, Kw) and v.rest is None:
+        return Num(C(len(v.items)))
     return Num(sym.A('Len', Ref('$t', v)))
 
 
